@@ -13,16 +13,26 @@ import (
 )
 
 type Dumper struct {
-	Info   *types.Info
-	Pkg    *types.Package
-	locals map[types.Object]int
-	Exprs  []ast.Expr // expression nodes in canonical order (for C03/C04 correspondence)
-	sb     *strings.Builder
+	Info    *types.Info
+	Pkg     *types.Package
+	locals  map[types.Object]int
+	Exprs   []ast.Expr        // value-expression nodes in canonical order (C03/C04 correspondence)
+	Defs    []*ast.Ident      // defining identifiers in canonical order
+	Clauses []*ast.CaseClause // type-switch clauses in canonical order
+	sb      *strings.Builder
 }
 
+// Decl is the canonical form of one package-level declaration together with the nodes visited while dumping it.
 type Decl struct {
-	Key  string
-	Text string
+	Key     string
+	Text    string
+	Exprs   []ast.Expr
+	Defs    []*ast.Ident
+	Clauses []*ast.CaseClause
+}
+
+func (d *Dumper) mk(key string) Decl {
+	return Decl{Key: key, Text: d.sb.String(), Exprs: d.Exprs, Defs: d.Defs, Clauses: d.Clauses}
 }
 
 func qual(p *types.Package) string { return p.Path() }
@@ -42,6 +52,7 @@ func (d *Dumper) typStr(t types.Type) string {
 // File returns the canonical declarations of f.
 func (d *Dumper) File(f *ast.File) []Decl {
 	var out []Decl
+	blank := map[string]int{}
 	for _, decl := range f.Decls {
 		switch x := decl.(type) {
 		case *ast.GenDecl:
@@ -53,12 +64,17 @@ func (d *Dumper) File(f *ast.File) []Decl {
 				case *ast.TypeSpec:
 					d.begin()
 					d.typeSpec(s)
-					out = append(out, Decl{"type " + s.Name.Name, d.end()})
+					out = append(out, d.mk("type "+s.Name.Name))
 				case *ast.ValueSpec:
 					for i, n := range s.Names {
 						d.begin()
 						d.valueName(x.Tok, s, i)
-						out = append(out, Decl{x.Tok.String() + " " + n.Name + "@" + strconv.Itoa(len(out)), d.end()})
+						key := x.Tok.String() + " " + n.Name
+						if n.Name == "_" {
+							blank[key]++
+							key += "@" + strconv.Itoa(blank[key])
+						}
+						out = append(out, d.mk(key))
 					}
 				}
 			}
@@ -76,7 +92,11 @@ func (d *Dumper) File(f *ast.File) []Decl {
 				d.block(x.Body.List)
 			}
 			d.w(")")
-			out = append(out, Decl{key, d.end()})
+			if x.Name.Name == "init" || x.Name.Name == "_" {
+				blank[key]++
+				key += "@" + strconv.Itoa(blank[key])
+			}
+			out = append(out, d.mk(key))
 		}
 	}
 	return out
@@ -85,8 +105,8 @@ func (d *Dumper) File(f *ast.File) []Decl {
 func (d *Dumper) begin() {
 	d.sb = &strings.Builder{}
 	d.locals = map[types.Object]int{}
+	d.Exprs, d.Defs, d.Clauses = nil, nil, nil
 }
-func (d *Dumper) end() string { return d.sb.String() }
 func (d *Dumper) w(s string)  { d.sb.WriteString(s) }
 
 func (d *Dumper) typeSpec(s *ast.TypeSpec) {
@@ -176,6 +196,9 @@ func (d *Dumper) objID(id *ast.Ident, o types.Object) string {
 }
 
 func (d *Dumper) def(id *ast.Ident) {
+	if id.Name != "_" {
+		d.Defs = append(d.Defs, id)
+	}
 	d.w(d.objID(id, d.Info.Defs[id]))
 }
 
@@ -420,6 +443,7 @@ func (d *Dumper) stmt(s ast.Stmt) {
 			if o := d.Info.Implicits[cc]; o != nil {
 				d.locals[o] = len(d.locals)
 				d.w(" bind:" + d.typStr(o.Type()))
+				d.Clauses = append(d.Clauses, cc)
 			}
 			d.block(cc.Body)
 			d.w(")")
@@ -567,21 +591,17 @@ func (d *Dumper) expr(e ast.Expr) {
 	}
 }
 
-// Compare returns differences between two declaration lists, order-insensitive at package level.
-func Compare(a, b []Decl) []string {
-	norm := func(ds []Decl) map[string]string {
-		m := map[string]string{}
+// Compare returns the differences between two declaration lists (package-level order is not significant) and the
+// pairs of corresponding declarations whose dumps are equal.
+func Compare(a, b []Decl) (diffs []string, pairs [][2]Decl) {
+	norm := func(ds []Decl) map[string]Decl {
+		m := map[string]Decl{}
 		for _, d := range ds {
-			k := d.Key
-			if i := strings.IndexByte(k, '@'); i >= 0 {
-				k = k[:i]
-			}
-			m[k] = d.Text
+			m[d.Key] = d
 		}
 		return m
 	}
 	ma, mb := norm(a), norm(b)
-	var diffs []string
 	keys := map[string]bool{}
 	for k := range ma {
 		keys[k] = true
@@ -602,9 +622,10 @@ func Compare(a, b []Decl) []string {
 			diffs = append(diffs, "extra in output: "+k)
 		case !oky:
 			diffs = append(diffs, "missing in output: "+k)
-		case x != y:
+		case x.Text != y.Text:
+			xs, ys := x.Text, y.Text
 			i := 0
-			for i < len(x) && i < len(y) && x[i] == y[i] {
+			for i < len(xs) && i < len(ys) && xs[i] == ys[i] {
 				i++
 			}
 			lo := i - 60
@@ -617,8 +638,26 @@ func Compare(a, b []Decl) []string {
 				}
 				return len(s)
 			}
-			diffs = append(diffs, fmt.Sprintf("%s:\n      src: …%s\n      out: …%s", k, x[lo:hi(x)], y[lo:hi(y)]))
+			diffs = append(diffs, fmt.Sprintf("%s:\n      src: …%s\n      out: …%s", k, xs[lo:hi(xs)], ys[lo:hi(ys)]))
+		default:
+			pairs = append(pairs, [2]Decl{x, y})
 		}
 	}
-	return diffs
+	return
+}
+
+// InitOrder returns the package-level declarations whose relative order is semantically significant
+// (variables with initialisers, init functions), in order.
+func InitOrder(ds []Decl) []string {
+	var out []string
+	for _, d := range ds {
+		if strings.HasPrefix(d.Key, "var ") && strings.Contains(d.Text, " = ") || strings.HasPrefix(d.Key, "func init@") {
+			k := d.Key
+			if i := strings.IndexByte(k, '@'); i >= 0 {
+				k = k[:i]
+			}
+			out = append(out, k)
+		}
+	}
+	return out
 }
